@@ -1,27 +1,63 @@
 mod test;
 
-use hashbrown::HashMap;
+use std::collections::{BTreeMap, HashSet};
 
-use serde_json::Value;
+use serde_json::{Map, Value};
 
-#[derive(Debug, Clone)]
+/// A configuration as a map from dotted setting keys (`"diagnostics.enable"`) to values.
+///
+/// Invariant: no key is nested below another key, so a setting is never both a value and a
+/// prefix of other settings. Keys are kept sorted, which makes every result deterministic.
+#[derive(Debug, Clone, Default)]
 pub struct FlattenConfigObject {
-    config: HashMap<String, Value>,
+    config: BTreeMap<String, Value>,
 }
 
 impl FlattenConfigObject {
     pub fn parse(luals_json: Value) -> Self {
-        let mut config = HashMap::new();
-        flatten_object("", &luals_json, &mut config);
-        Self { config }
+        let mut config = Self::default();
+        config.merge(&luals_json);
+        config
+    }
+
+    /// Apply the settings of a later configuration file, written with flat keys, nested objects
+    /// or a mixture of both: scalars replace earlier values, arrays are appended without
+    /// duplicates.
+    pub fn merge(&mut self, overlay: &Value) {
+        flatten_object("", overlay, self);
     }
 
     pub fn to_emmyrc(&self) -> Value {
         to_emmyrc_json(self)
     }
+
+    fn set(&mut self, key: &str, value: &Value) {
+        // A setting replaces the settings it conflicts with: those nested below it and those it
+        // is nested below.
+        self.config
+            .retain(|k, _| !is_nested_below(k, key) && !is_nested_below(key, k));
+        if let (Some(Value::Array(base)), Value::Array(overlay)) = (self.config.get_mut(key), value)
+        {
+            let mut seen: HashSet<Value> = base.iter().cloned().collect();
+            base.extend(
+                overlay
+                    .iter()
+                    .filter(|item| seen.insert((*item).clone()))
+                    .cloned(),
+            );
+        } else {
+            self.config.insert(key.to_string(), value.clone());
+        }
+    }
 }
 
-fn flatten_object(prefix: &str, val: &Value, config: &mut HashMap<String, Value>) {
+/// `key` names a setting inside the object named by `parent` (`"a.b.c"` is nested below `"a.b"`).
+fn is_nested_below(key: &str, parent: &str) -> bool {
+    key.strip_prefix(parent)
+        .is_some_and(|rest| rest.starts_with('.'))
+}
+
+fn flatten_object(prefix: &str, val: &Value, config: &mut FlattenConfigObject) {
     match val {
         Value::Object(map) => {
             for (k, v) in map.iter() {
@@ -34,28 +70,36 @@ fn flatten_object(prefix: &str, val: &Value, config: &mut HashMap<String, Value>
             }
         }
         _ => {
-            config.insert(prefix.to_string(), val.clone());
+            config.set(prefix, val);
         }
     }
 }
 
 fn to_emmyrc_json(config: &FlattenConfigObject) -> Value {
-    let mut emmyrc = Value::Object(Default::default());
+    let mut emmyrc = Map::new();
     for (k, v) in &config.config {
         let keys: Vec<&str> = k.split('.').collect();
-        let mut current = &mut emmyrc;
-        for i in 0..keys.len() {
-            let key = keys[i];
-            if i == keys.len() - 1 {
-                current[key] = v.clone();
-            } else {
-                current = current
-                    .as_object_mut()
-                    .expect("always an object")
-                    .entry(key.to_string())
-                    .or_insert(Value::Object(Default::default()));
+        insert_at_path(&mut emmyrc, &keys, v);
+    }
+    Value::Object(emmyrc)
+}
+
+fn insert_at_path(object: &mut Map<String, Value>, keys: &[&str], value: &Value) {
+    match keys {
+        [] => {}
+        [key] => {
+            object.insert(key.to_string(), value.clone());
+        }
+        [key, rest @ ..] => {
+            let child = object
+                .entry(key.to_string())
+                .or_insert_with(|| Value::Object(Map::new()));
+            if !child.is_object() {
+                *child = Value::Object(Map::new());
+            }
+            if let Value::Object(child) = child {
+                insert_at_path(child, rest, value);
             }
         }
     }
-    emmyrc
 }
